@@ -644,7 +644,7 @@ class DavSys:
                 tuple(sorted(a["listing"].items())), tuple(sorted(a["subs"])), tuple(sorted(a["get"].items())))
 
     def content_matches(self, name, served, expected):
-        if name.endswith(".ics"):
+        if name.lower().endswith(".ics"):
             return ical.same_calendar(served, expected)
         return served == expected
 
@@ -855,7 +855,7 @@ class DavSys:
                 continue
             uids = {}
             for nm, body in a["bodies"].items():
-                if nm.endswith(".ics"):
+                if nm.lower().endswith(".ics"):
                     u = ical.first_uid(body)
                     if u is not None:
                         uids.setdefault(u, []).append(self.canon_name(nm))
@@ -869,18 +869,18 @@ class DavSys:
             self.restarted = True
         if kind == "delete" and info.get("success"):
             old = prev[tcoll]["bodies"].get(tname)
-            if old is not None and tname.endswith(".ics"):
+            if old is not None and tname.lower().endswith(".ics"):
                 u = ical.first_uid(old)
                 if u is not None:
                     self.uidhist[(tcoll, u)] = "deleted"
         if kind not in ("put", "post") or resp is None:
             return
         body = B.ALL_BODIES[op[3] if kind == "put" else op[2]]
-        isics = (tname or "x.ics").endswith(".ics") if kind == "put" else B.ct_for_body(op[2]) == B.CT_ICS
+        isics = (tname or "x.ics").lower().endswith(".ics") if kind == "put" else B.ct_for_body(op[2]) == B.CT_ICS
         if not isics or tcoll not in ("cal", "c2") or not prev[tcoll]["exists"]:
             return
         uid = ical.first_uid(body)
-        holders = [self.canon_name(n) for n, c in prev[tcoll]["bodies"].items() if n != tname and n.endswith(".ics") and uid is not None and ical.first_uid(c) == uid]
+        holders = [self.canon_name(n) for n, c in prev[tcoll]["bodies"].items() if n != tname and n.lower().endswith(".ics") and uid is not None and ical.first_uid(c) == uid]
         conflict = "{urn:ietf:params:xml:ns:caldav}no-uid-conflict" in dav.error_tags(resp)
         if conflict and not holders:
             how = self.uidhist.get((tcoll, uid), "never-held")
